@@ -12,6 +12,7 @@ inductive Op where
   | fpush (i : Init) | fpop | ftrunc (n : Nat) | fclear | item (i : Nat) (op : Op)
   | assign (i : Init)
   | setField (v i : Nat) (x : Bytes)             -- write the image of sized field `i` (of variant `v`) through the mutable accessor
+  | last (op : Op)                               -- an operation on the unsized last field of a struct (`msg.tail.push(..)`)
 
 inductive OpRet where
   | ok | full | none | some (bs : Bytes) | elem (bs : Bytes) | panic | err (e : Err) | empty | noitem | novariant
@@ -114,6 +115,15 @@ def applyOp : Op → Ty → Slice → Res OpOut
     (tag.readU s).bind fun t =>
       if t ≠ v then .ok ⟨.novariant, s.bytes⟩
       else setFieldAt ((dictLL vs).getD t []) (ceilMul tag.size (max tag.align (alignLL (dictLL vs)))) i x s.bytes
+  | .last op, .ustruct fs last, s =>
+    -- the last field is mapped from the struct's own (floored) bytes behind `LAST_FIELD_OFFSET`
+    let ds := dictL fs
+    let al := alignL (ds ++ [last.dict])
+    let n := floorMul s.len al
+    let lfo := ceilMul (foldSize ds 0) last.dict.align
+    if n < lfo then .fault .panic else
+    (applyOp op last ⟨s.addr + lfo, (s.bytes.take n).drop lfo⟩).bind fun o =>
+      .ok ⟨o.ret, s.bytes.take lfo ++ o.bytes ++ s.bytes.drop n⟩
   | .fpush i, .flex it l, s =>
     let al := max l.align it.dict.align
     let n := floorMul s.len al
@@ -153,6 +163,7 @@ def Op.subst (a b : UInt8) : Op → Op
   | .setField v i x => .setField v i (substB a b x)
   | .fpush i => .fpush (i.subst a b)
   | .item i op => .item i (op.subst a b)
+  | .last op => .last (op.subst a b)
   | .assign i => .assign (i.subst a b)
   | op => op
 end FV
